@@ -55,6 +55,16 @@ XalanDOMStringCache::~XalanDOMStringCache()
 XalanDOMString&
 XalanDOMStringCache::get()
 {
+    // release() is called from destructors, so it must not have to
+    // allocate memory when it puts a string back on the available list.
+    const StringListType::size_type     theTotalSize =
+        m_availableList.size() + m_busyList.size() + 1;
+
+    if (m_availableList.capacity() < theTotalSize)
+    {
+        m_availableList.reserve(theTotalSize * 2);
+    }
+
     if (m_availableList.empty() == true)
     {
         XalanDOMString&     theString = m_allocator.create();
